@@ -124,7 +124,7 @@ def random_cases(chk, n):
             out.append({"fam": "random", "policy": pol, "req": req, "strict": rng.random() < 0.3,
                         "resolver": rng.choice([None, None, "static", "raising"]),
                         "checker": rng.choice([None, "sync", "sync", "async", "raising", "def-coroutine", "async-callable",
-                                               "decorated-async", "async-raising"]),
+                                               "decorated-async", "async-raising", "custom-awaitable"]),
                         "cache": rng.random() < 0.4})
     return out
 
@@ -205,7 +205,18 @@ def run_impl_one(c):
             await asyncio.sleep(0)
             raise RuntimeError("rebac down (while awaited)")
 
-    CHECKERS = {"sync": SyncChecker, "async": AsyncChecker, "raising": RaisingChecker,
+    class _LaterAnswer:                      # awaitable only through __await__ (neither coroutine nor Future)
+        def __init__(self, owner, a, context):
+            self.owner, self.a, self.context = owner, a, context
+
+        def __await__(self):
+            return AsyncChecker.check(self.owner, *self.a, context=self.context).__await__()
+
+    class CustomAwaitableChecker(SyncChecker):
+        def check(self, subject, relation, resource, *, context=None):  # type: ignore[override]
+            return _LaterAnswer(self, (subject, relation, resource), context)
+
+    CHECKERS = {"custom-awaitable": CustomAwaitableChecker, "sync": SyncChecker, "async": AsyncChecker, "raising": RaisingChecker,
                 "def-coroutine": DefCoroutineChecker, "async-callable": AsyncCallableChecker,
                 "decorated-async": DecoratedAsyncChecker, "async-raising": AsyncRaisingChecker}
 
